@@ -30,7 +30,8 @@ Encoding:
   once per packet taken from the store, and only if `loss_rate` is truthy), `delays` what `delay_dist()` returns at its
   1st, 2nd, … call (it is called once per packet that is *not* lost).  The wire generator counts its calls in its local state;
   a list that runs out yields `0`;
-* `self.out.put(packet)` is the observation `log "out" (int id)` (recorded with `env.now` in `KState.trace`);
+* `self.out.put(packet)` is the observation `log "out" (int id)` (recorded with `env.now` in `KState.trace`); a dropped
+  packet is the observation `log "lost" (int id)` (the debug print of the code);
 * `K` has no call that reads `env.now`: every generator carries the instant of its next resumption in its local state
   (`now + delay` for a sleep — the kernel's own expression).  `Wire.run` resumes from `store.get()` either in the instant
   of the call (an item was there) or in the instant of the `put` that serves it, which is the packet's `current_time`: so
@@ -104,6 +105,10 @@ def wireLoop (now : τ) (nl nd : Nat) : Burst τ (WSt τ) :=
 def wireOut (now : τ) (id : Int) (nl nd : Nat) : Burst τ (WSt τ) :=
   .call (.log "out" (.int id)) fun _ => wireLoop now nl nd
 
+/-- the packet is dropped (`if self.debug: print("Dropped on wire …")`: the observation `lost`), then the loop -/
+def wireLost (now : τ) (id : Int) (nl nd : Nat) : Burst τ (WSt τ) :=
+  .call (.log "lost" (.int id)) fun _ => wireLoop now nl nd
+
 /-- the `k`-th draw of a list (`0` when it has run out) -/
 def draw (l : List τ) (k : Nat) : τ := l.getD k Num.zero
 
@@ -113,7 +118,7 @@ def wireServe (cfg : WireCfg τ) (losses delays : List τ) (t0 : τ) (nl nd : Na
   let now := Num.pymax t0 ct                                    -- (env.now: see the header)
   match Wire.lossOn cfg with
   | some r =>
-    if draw losses nl < r then wireLoop now (nl + 1) nd         -- lost: `random.uniform(0, 1) >= loss_rate` is false
+    if draw losses nl < r then wireLost now id (nl + 1) nd      -- lost: `random.uniform(0, 1) >= loss_rate` is false
     else
       if now - ct < draw delays nd then                         -- if queued_time < delay:
         .call (.timeout (draw delays nd - (now - ct)) .none) fun rp => match rp with
@@ -152,6 +157,13 @@ def outOf : Obs τ → Option (Int × τ)
   | _ => none
 
 def outsOf (tr : Array (Obs τ)) : List (Int × τ) := tr.toList.filterMap outOf
+
+/-- the packets that left the wire, forwarded (`out`) or dropped (`lost`), in order -/
+def leftOf : Obs τ → Option Int
+  | .log _ what (.int id) _ => if what = "out" ∨ what = "lost" then some id else none
+  | _ => none
+
+def leftsOf (tr : Array (Obs τ)) : List Int := tr.toList.filterMap leftOf
 
 /-- is the packet lost, given the draw of `random.uniform(0, 1)`? (`Wire.lostNow` of the LTS) -/
 def isLost (cfg : WireCfg τ) (x : τ) : Bool := Wire.lostNow cfg x
